@@ -40,6 +40,9 @@ pub trait Adapter {
     fn comm_obs(_i: usize, _cm: &Cm<Self>, _st: &St<Self>, _out: &mut Out) {}
     fn proof_obs(_name: &str, _pf: &Pf<Self>, _out: &mut Out) {}
     fn key_obs(_ck: &CK<Self>, _vk: &VK<Self>, _out: &mut Out) {}
+    /// C19: the shape parameters a size formula depends on (vector lengths, option tags)
+    fn size_shape_comm(_cm: &Cm<Self>) -> Vec<String> { vec![] }
+    fn size_shape_proof(_pf: &Pf<Self>) -> Vec<String> { vec![] }
     /// scheme-specific commitment mutation (e.g. dropping the shifted part)
     fn mutate_comm(_kind: &str, _cm: &LabeledCommitment<Cm<Self>>, _args: &[String]) -> Option<LabeledCommitment<Cm<Self>>> {
         None
@@ -543,6 +546,32 @@ where
                 out.input(&format!("mchal.{}", m), &vs2.challenges(vs2_start));
             }
             _ => out.obs1(&name, "S", "skipped".into()),
+        }
+    }
+    // ---- C19: serialized sizes of commitments and proofs, with the shape they depend on ----
+    if c.has("c19") {
+        use ark_serialize::Compress;
+        for i in 0..n {
+            for (tag, compress) in [("c", Compress::Yes), ("u", Compress::No)] {
+                let cm = comms[i].commitment();
+                let mut b = vec![]; cm.serialize_with_mode(&mut b, compress).unwrap();
+                out.obs1(&format!("size.comm.{}.{}", i, tag), "N", cm.serialized_size(compress).to_string());
+                out.obs1(&format!("bytes.comm.{}.{}", i, tag), "N", b.len().to_string());
+            }
+            let sh = A::size_shape_comm(comms[i].commitment());
+            if !sh.is_empty() { out.obs(&format!("shape.comm.{}", i), "N", &sh); }
+            if sh.len() == 4 && i == 0 { out.input("m_ext", &[sh[2].clone()]); }   // codeword length of the linear code (taken from the library for Brakedown)
+        }
+        for (t, rec) in recs.iter().enumerate() {
+            if let Some(pf) = &rec.proof {
+                for (tag, compress) in [("c", Compress::Yes), ("u", Compress::No)] {
+                    let mut b = vec![]; pf.serialize_with_mode(&mut b, compress).unwrap();
+                    out.obs1(&format!("size.proof.{}.{}", t, tag), "N", pf.serialized_size(compress).to_string());
+                    out.obs1(&format!("bytes.proof.{}.{}", t, tag), "N", b.len().to_string());
+                }
+                let sh = A::size_shape_proof(pf);
+                if !sh.is_empty() { out.obs(&format!("shape.proof.{}", t), "N", &sh); }
+            }
         }
     }
     // ---- C12: canonical serialization of every artefact of this scenario ----
